@@ -244,6 +244,7 @@ int32_t tls13NewTicket(ssl_t *ssl,
     rc = psAesReadyGCMRandomIV(&ctx, iv, NULL, 0, NULL);
     if (rc < 0)
     {
+        psDynBufUninit(&buf);
         tls13FreePsk(psk, ssl->hsPool);
         psAesClearGCM(&ctx);
         return rc;
@@ -257,6 +258,7 @@ int32_t tls13NewTicket(ssl_t *ssl,
             &stateLen);
     if (rc < 0)
     {
+        psDynBufUninit(&buf);
         tls13FreePsk(psk, ssl->hsPool);
         psAesClearGCM(&ctx);
         return rc;
@@ -280,6 +282,14 @@ int32_t tls13NewTicket(ssl_t *ssl,
 # endif
 
     tag = psMalloc(ssl->hsPool, TLS_GCM_TAG_LEN);
+    if (tag == NULL)
+    {
+        psAesClearGCM(&ctx);
+        psDynBufUninit(&buf);
+        tls13FreePsk(psk, ssl->hsPool);
+        psFree(state, ssl->hsPool);
+        return PS_MEM_FAIL;
+    }
     psAesGetGCMTag(&ctx,
             TLS_GCM_TAG_LEN,
             tag);
@@ -376,6 +386,10 @@ int32_t tls13DecryptTicket(ssl_t *ssl,
 
     ptLen = encStateLen;
     pt = psMalloc(ssl->hsPool, ptLen);
+    if (pt == NULL)
+    {
+        goto out_internal_error;
+    }
 
     rc = psAesInitGCM(&ctx, key->symkey, key->symkeyLen);
     if (rc < 0)
@@ -507,6 +521,7 @@ int32_t tls13ExportState(ssl_t *ssl,
         &paramsDataLen);
     if (paramsData == NULL)
     {
+        psDynBufUninit(&buf);
         return PS_MEM_FAIL;
     }
     psDynBufAppendTlsVector(&buf,
